@@ -23,6 +23,7 @@ func init() {
 		&Rule{ID: "WR-ENUM", Doc: "wire converters (operators, term kinds, policy kinds) are total, mutually inverse and name-consistent", Run: ruleWREnum, Min: 50},
 		&Rule{ID: "WR-SYMS", Doc: "default symbol table, offset 1024 and per-block symbol split points are the specified ones", Run: ruleWRSyms, Min: 8},
 		&Rule{ID: "WR-FIELDS", Doc: "every converter reads every field of its source structure and sets every field of its result", Run: ruleWRFields, Min: 20},
+		&Rule{ID: "WR-SYMRANGE", Doc: "every decoded block is refused if it uses a symbol or variable index that the table declared so far does not define (a later block must not be able to give an earlier term its meaning)", Run: ruleWRSymRange, Min: 2},
 		&Rule{ID: "WR-SYMTAB", Doc: "the token-wide symbol table is a fresh clone extended with the symbols of exactly the blocks the token holds, in block order; new blocks must be disjoint from it", Run: ruleWRSymtab, Min: 8},
 		&Rule{ID: "WR-ELEMWISE", Doc: "element-wise conversion loops produce exactly one output element per input element", Run: ruleWRElemwise, Min: 10},
 		&Rule{ID: "WR-VERSION", Doc: "blocks outside the supported schema version are rejected; encoders write the supported version", Run: ruleWRVersion, Min: 4},
@@ -1119,10 +1120,146 @@ func ruleWRSymtab(p *Prog, r *Reporter) {
 					}
 				}
 				r.Check(okEach, pos, name, "every block's symbols", "each decoded block's symbols extend the table on every continuing iteration, in block order", "some decoded block's symbols are not added to the cumulative table")
+				// Extend drops strings the table already holds: every decoded table must be checked to add only new
+				// symbols (a disjointness test before, or a length comparison after), otherwise later indexes shift
+				for _, e := range extendCalls {
+					okNew := false
+					// after: the path onwards from Extend is guarded by a comparison involving the table's length
+					for _, bb := range fn.Blocks {
+						if bb != e.Block() && !e.Block().Dominates(bb) {
+							continue
+						}
+						iff := blockIf(bb)
+						if iff == nil {
+							continue
+						}
+						bo, isB := iff.Cond.(*ssa.BinOp)
+						if !isB || (bo.Op != token.NEQ && bo.Op != token.EQL) {
+							continue
+						}
+						lenOf := func(v ssa.Value) bool {
+							return dependsOn(v, func(x ssa.Value) bool {
+								c, ok := x.(*ssa.Call)
+								if !ok || len(c.Call.Args) == 0 {
+									return false
+								}
+								if f := c.Call.StaticCallee(); f != nil && f.Name() == "Len" && p.D(c.Call.Args[0]) == p.D(e.Call.Args[0]) && instrDominates(e, c) {
+									return true
+								}
+								return false
+							})
+						}
+						if lenOf(bo.X) || lenOf(bo.Y) {
+							bad := bb.Succs[0]
+							if bo.Op == token.EQL {
+								bad = bb.Succs[1]
+							}
+							if onlyErrorReturnsFrom(bad) {
+								okNew = true
+							}
+						}
+					}
+					// before: IsDisjoint(table, block symbols) with the overlapping case refused
+					for _, g := range guardsOf(e.Block()) {
+						if c, isC := g.cond.(*ssa.Call); isC && g.val && isCallTo(&c.Call, "datalog.SymbolTable.IsDisjoint") && p.D(c.Call.Args[1]) == p.D(e.Call.Args[1]) {
+							okNew = true
+						}
+					}
+					r.Check(okNew, p.instrPos(e), name, "decoded table adds only new symbols", "a block table that repeats a known symbol is refused", "the decoder extends the token-wide table with a block's symbols without checking that all of them are new: Extend silently drops known strings (default symbols, earlier blocks', repeats) and the block's later indexes resolve to other strings, which a later block can supply")
+				}
 			default:
 				// Seal: nothing added
 				r.Check(len(extendCalls) == 0, pos, name, "no new symbols", "sealing adds no symbols", "sealing extends the symbol table")
 			}
 		}
+	}
+}
+
+// ---- WR-SYMRANGE
+
+// symbolRangeValidator: does fn (with its closures) compare String and Variable indexes of facts, rules and checks
+// against the length of a symbol table?
+func (p *Prog) symbolRangeValidator(fn *ssa.Function) bool {
+	hasLen, hasString, hasVar := false, false, false
+	fields := map[string]bool{}
+	for _, f := range withClosures(fn) {
+		for _, b := range f.Blocks {
+			for _, in := range b.Instrs {
+				switch x := in.(type) {
+				case *ssa.Call:
+					if isCallTo(&x.Call, "datalog.SymbolTable.Len") {
+						hasLen = true
+					}
+					if bi, isB := x.Call.Value.(*ssa.Builtin); isB && bi.Name() == "len" && isRepoNamed(deref(x.Call.Args[0].Type()), "datalog", "SymbolTable") {
+						hasLen = true
+					}
+				case *ssa.TypeAssert:
+					switch typeName(x.AssertedType) {
+					case "String":
+						hasString = true
+					case "Variable":
+						hasVar = true
+					}
+				case *ssa.FieldAddr:
+					fields[fieldName(x)] = true
+				case *ssa.Field:
+				}
+			}
+		}
+	}
+	return hasLen && hasString && hasVar && fields["facts"] && fields["rules"] && fields["checks"]
+}
+
+func ruleWRSymRange(p *Prog, r *Reporter) {
+	globalP = p
+	n := 0
+	for _, fn := range p.funcsIn("biscuit") {
+		var env *ssa.Alloc
+		for _, a := range allocsOf(fn, "pb", "Biscuit") {
+			if passedTo(a, "google.golang.org/protobuf/proto.Unmarshal") {
+				env = a
+			}
+		}
+		if env == nil {
+			continue
+		}
+		n++
+		name := p.FuncName(fn)
+		// the decoded blocks: results of protoBlockToTokenBlock
+		for _, c := range callsIn(fn) {
+			cv, ok := c.(*ssa.Call)
+			if !ok || cv.Call.StaticCallee() == nil || cv.Call.StaticCallee().Name() != "protoBlockToTokenBlock" {
+				continue
+			}
+			blk := extractOf(cv, 0)
+			okV := false
+			if len(blk) > 0 {
+				for _, c2 := range callsIn(fn) {
+					v2, isV := c2.(*ssa.Call)
+					if !isV || v2.Call.StaticCallee() == nil || !p.isRepoFunc(v2.Call.StaticCallee()) || !p.symbolRangeValidator(v2.Call.StaticCallee()) {
+						continue
+					}
+					uses := false
+					for _, a := range v2.Call.Args {
+						if a == ssa.Value(blk[0]) {
+							uses = true
+						}
+					}
+					if !uses || !instrDominates(cv, v2) {
+						continue
+					}
+					// its error ends the decoding
+					for _, nb := range nilTests(v2) {
+						if nb.nonNil != nil && onlyErrorReturnsFrom(nb.nonNil) {
+							okV = true
+						}
+					}
+				}
+			}
+			r.Check(okV, p.instrPos(cv), name, "decoded block symbols in range", "the block is validated against the symbols declared so far, and refused otherwise", "a decoded block is accepted without checking that its symbol and variable indexes are defined by the tables declared up to that block: an index nobody declared prints as a placeholder, and a block appended later can declare it and so choose the meaning of a term of an earlier block (an attenuated token authorized where its parent is refused)")
+		}
+	}
+	if n == 0 {
+		r.Bad("?", "biscuit", "decoder", "no function decodes a pb.Biscuit envelope")
 	}
 }
